@@ -125,6 +125,13 @@ def enumerate_configs(tier: str):
                 yield {"entry": ename, "integration": integ, "physical": phys, "arity": arity,
                        "logical": 1 if arity == 3 else 2, "delimited": delimited, "frame_size": fs, "flow": fk,
                        "flow_logical": None, "n": n, "collect": False, "ns": k}
+    # rdflib Datasets that also hold EMPTY named graphs (an IRI-named and a bnode-named one), through every stream class
+    for (ename, integ, explicit), fs, n, delimited, logical in itertools.product(
+            [e for e in ENTRIES if e[0] in ("r_serialize_stream", "r_serialize_options", "r_grouped_to_file")],
+            (1, 3, 250), (3, -6), (True, False), (2, 4, 3)):
+        for phys in ([1, 2, 3] if explicit else [0]):
+            yield {"entry": ename, "integration": integ, "physical": phys, "arity": 4, "logical": logical, "delimited": delimited,
+                   "frame_size": fs, "flow": "inferred", "flow_logical": None, "n": n, "collect": False, "empty_graphs": True}
     for n in ns:
         for arity in (3, 4):
             yield {"entry": "g_sink_serialize", "integration": "generic", "physical": 0, "arity": arity, "logical": None,
@@ -155,6 +162,9 @@ def run_config(c: dict) -> dict:
     out = io.BytesIO()
     res: dict = {"stmts": stmts}
     binds = [(f"p{i}", f"http://ex.org/nsdecl/{i}/") for i in range(c.get("ns") or 0)]
+    # (a Dataset yields its graphs in hash order: several empty ones, so that some come before a non-empty graph)
+    eg = ([("iri", f"http://ex.org/emptygraph/{k}/new-prefix#g{k}") for k in range(6)] + [("bnode", "emptyg")]) \
+        if c.get("empty_graphs") else None
     try:
         flow = build_flow(c)
         if c["entry"] == "g_sink_serialize":
@@ -188,15 +198,15 @@ def run_config(c: dict) -> dict:
                 gser.grouped_stream_to_file((s for s in [pj.generic_sink_of(stmts, binds)]), out, options=options)
             elif e == "r_serialize_stream":
                 stream = pj.make_stream(cfg, options)
-                store = pj.rdflib_store_of(stmts, binds, dataset=c["arity"] == 4)
+                store = pj.rdflib_store_of(stmts, binds, dataset=c["arity"] == 4, empty_graphs=eg)
                 store.serialize(out, format="jelly", stream=stream, options=options)
             elif e == "r_serialize_options":
-                store = pj.rdflib_store_of(stmts, binds, dataset=c["arity"] == 4)
+                store = pj.rdflib_store_of(stmts, binds, dataset=c["arity"] == 4, empty_graphs=eg)
                 store.serialize(out, format="jelly", options=options)
             elif e == "r_flat_to_file":
                 rser.flat_stream_to_file((T.stmt_to_rdflib(s) for s in stmts), out, options=options)
             elif e == "r_grouped_to_file":
-                store = pj.rdflib_store_of(stmts, binds, dataset=c["arity"] == 4)
+                store = pj.rdflib_store_of(stmts, binds, dataset=c["arity"] == 4, empty_graphs=eg)
                 rser.grouped_stream_to_file((s for s in [store]), out, options=options)
             elif e == "r_stream_frames_gen":
                 stream = pj.make_stream(cfg, options)
